@@ -324,6 +324,23 @@ def level_walk(ctx, m):
         ctx.check(ok and recv_ok and price_ok, "level-walk", name, ctx.loc(f),
                   "%s[i] = %s side level query at bid_ask().%s %s i * tick_size" % (name, side, "0" if side == "Bid" else "1", "-" if side == "Bid" else "+"),
                   "%s[i] is %s (expected the %s side queried at touch %s i*tick)" % (name, render(r), side, "-" if side == "Bid" else "+"))
+    # mid price = mean of the two touch prices of this book, computed in floating point
+    f = m.book_fn("mid_price")
+    r = m.q(f).ret()
+    from analysis.origin import const_float
+
+    def touch(e, i):
+        while e[0] in ("conv", "cast"):
+            e = e[1] if e[0] == "conv" else e[2]
+        return e[0] == "field" and e[2] == str(i) and e[1][0] == "call" and e[1][4] == "bid_ask" and e[1][2][0] == ("param", 1, "self")
+    okm = False
+    if r[0] == "bin" and r[1] in ("Mul", "Div"):
+        for a, b in ((r[2], r[3]), (r[3], r[2])):
+            c = const_float(a)
+            if b[0] == "bin" and b[1] == "Add" and ((touch(b[2], 0) and touch(b[3], 1)) or (touch(b[2], 1) and touch(b[3], 0))):
+                if (r[1] == "Mul" and c == 0.5) or (r[1] == "Div" and a is r[3] and c == 2.0):
+                    okm = True
+    ctx.check(okm, "views", "mid_price", ctx.loc(f), "mid_price() = (bid + ask) / 2 of bid_ask(), in f64", "mid_price() returns %s" % render(r))
     f = m.book_fn("bid_ask")
     r = m.q(f).ret()
     ok = r[0] == "agg" and r[1] == "tuple" and len(r[3]) == 2 and all(x[0] == "call" and x[4] == "best_price" for x in r[3]) \
